@@ -178,9 +178,13 @@ timeout:
         (ABTD_atomic_relaxed_load_int(&thread.state) != ABT_THREAD_STATE_READY)
             ? ABT_TRUE
             : ABT_FALSE;
+    if (!is_timedout) {
+        ABTV_REACH("waitlist.deadline_passed_but_signalled");
+    }
     if (is_timedout) {
         /* This thread is still in the list. */
         if (p_waitlist->p_head == &thread) {
+            ABTV_REACH("waitlist.timeout_unlink_head");
             /* thread is a head. */
             /* Note that thread->p_prev cannot be used to check whether
              * thread is a head or not because signal and broadcast do
@@ -196,11 +200,13 @@ timeout:
             ABTI_ASSERT(thread.p_prev);
             thread.p_prev->p_next = thread.p_next;
             if (thread.p_next && thread.type == ABTI_THREAD_TYPE_EXT) {
+                ABTV_REACH("waitlist.timeout_unlink_middle");
                 /* Only a dummy external thread created by this function
                  * checks p_prev.  Note that a real external thread is
                  * also dummy, so updating p_prev is allowed. */
                 thread.p_next->p_prev = thread.p_prev;
             } else {
+                ABTV_REACH("waitlist.timeout_unlink_tail");
                 /* This thread is p_tail */
                 ABTI_ASSERT(p_waitlist->p_tail == &thread);
                 p_waitlist->p_tail = thread.p_prev;
